@@ -311,7 +311,7 @@ func C12(p *ir.Program, r *report.R) {
 			switch top {
 			case csT + "defaultSetProposal":
 				r.Check("K1", top+"/parts-from-proposal", p.InstrPos(s.Instr), v == "types.NewPartSetFromHeader(proposal.BlockPartsHeader)", "part set is created from the proposal's parts header: "+v)
-				c.Guards(top, "accept proposal parts", s.Instr,
+				c.GuardsS(top, "accept proposal parts", s,
 					G{"signature", "*PubKey.VerifyBytes(*Validator.PubKey,*Proposal.SignBytes(proposal,cs.status.ChainID),proposal.Signature) || *VerifyBytes(*GetProposer(cs.RoundState.Validators)*,*Proposal.SignBytes(proposal,cs.status.ChainID),proposal.Signature)"},
 					G{"height", ir.EqPat("cs.RoundState.Height", "proposal.Height")},
 					G{"round", ir.EqPat("cs.RoundState.Round", "proposal.Round")})
@@ -572,13 +572,13 @@ func c12AddPart(c C, prop string) {
 			continue
 		}
 		n++
-		c.Guards(name, "store parts[i]", s.Instr, full...)
+		c.GuardsS(name, "store parts[i]", s, full...)
 		r.Check("K1", name+"/store parts[i]/value", p.InstrPos(s.Instr), ir.Render(s.Val) == "part", "the stored part is the verified one")
 	}
 	c.MustFind("K1", name+"/store parts[i]", fn, n, "element store into ps.parts")
 	for _, s := range p.Stores(p.Field("types", "PartSet.count")) {
 		if s.Fn == fn {
-			c.Guards(name, "count++", s.Instr, full...)
+			c.GuardsS(name, "count++", s, full...)
 		}
 	}
 	if prop == "C12" {
